@@ -1,7 +1,7 @@
 use std::collections::{BTreeMap, BTreeSet};
 use std::fs::File;
 use std::io;
-use std::io::{BufRead, BufReader, Read};
+use std::io::Read;
 use std::path::Path;
 
 use csv::{ReaderBuilder, StringRecord};
@@ -16,15 +16,22 @@ impl TruthTable<String> {
     pub fn from_csv_file(
         path: impl AsRef<Path>,
     ) -> Result<TruthTable<String>, TruthTableFromCsvError> {
-        let file_row_count = BufReader::new(File::open(&path)?).lines().count();
-        if file_row_count == 0 {
+        let mut contents = Vec::new();
+        File::open(&path)?.read_to_end(&mut contents)?;
+        if contents.is_empty() {
             return Ok(TruthTable {
                 inputs: vec![],
                 outputs: vec![],
             });
         }
 
-        Self::from_csv_common(file_row_count, Box::new(File::open(path)?))
+        // Count rows exactly as `from_csv_string` does, so both entry points agree.
+        let file_row_count = String::from_utf8_lossy(&contents)
+            .trim()
+            .split('\n')
+            .count();
+
+        Self::from_csv_common(file_row_count, Box::new(io::Cursor::new(contents)))
     }
 
     pub fn from_csv_string(input: &str) -> Result<TruthTable<String>, TruthTableFromCsvError> {
